@@ -13,6 +13,7 @@ import Proofs.XdrDec
 import Proofs.XdrSize
 import Proofs.XdrPrefix
 import Proofs.XdrStream
+import Proofs.XdrFuel
 namespace Pydap.C05
 open Pydap Pydap.Xdr
 open Pydap.Stream (SR srRead absSR)
@@ -75,12 +76,23 @@ theorem C05_decoder_prefix_stable (t : Tmpl) (s q : Bytes) (d : Data) (r : Bytes
     (h : decImpl t s = .ok (d, r)) : decImpl t (s ++ q) = .ok (d, r ++ q) :=
   decImpl_ext t s q d r h
 
-/-- **a truncated response never decodes**: no proper prefix of a conforming stream is accepted (with
-    the strict reader of fix 72d8e7c some `read` meets the end of the data; before it, a stream cut at a
-    record boundary or inside a string decoded to fewer rows / shorter strings) -/
+/-- **a truncated response raises**: on every proper prefix of a conforming stream some `read` meets the end
+    of the data — the result is the reader's end-of-data error (`EOFError` of the strict `BytesReader` of fix
+    72d8e7c), not a value and not any other failure (in particular never the model's own `fuel`; before that
+    fix a stream cut at a record boundary or inside a string decoded to fewer rows / shorter strings) -/
 theorem C05_truncated_rejected (t : Tmpl) (d : Data) (p q : Bytes) (h : WF t d = true)
-    (he : XdrSpec.enc t d = p ++ q) (hq : q ≠ []) (x : Data × Bytes) : decImpl t p ≠ .ok x :=
-  decImpl_prefix t d p q h he hq x
+    (he : XdrSpec.enc t d = p ++ q) (hq : q ≠ []) : decImpl t p = .error .short :=
+  decImpl_prefix_short t d p q h he hq
+
+/-- … and through a `StreamReader` (`StopIteration`), for every chunking of the truncated stream -/
+theorem C05_truncated_rejected_stream (t : Tmpl) (d : Data) (cs : List Bytes) (q : Bytes) (h : WF t d = true)
+    (he : XdrSpec.enc t d = cs.flatten ++ q) (hq : q ≠ []) : absSR (decStream t cs) = .error .eof := by
+  rw [decStream_eq, decImpl_prefix_short t d cs.flatten q h he hq]
+  rfl
+
+/-- the fuel of the model is immaterial on *any* stream: every amount that covers the stream gives `decImpl` -/
+theorem C05_fuel_immaterial (t : Tmpl) (s : Bytes) (f : Nat) (h : fuelFor t s ≤ f) : dec f t s = decImpl t s :=
+  decImpl_fuel t s f h
 
 /-- **Content-Length**: whenever `calculate_size` announces a length it is the length of the body
     (DDS ‖ `Data:\n` ‖ XDR) for every value of the declaration -/
@@ -209,9 +221,12 @@ example : WF exS exSD = true ∧ (XdrSpec.enc exS exSD).length = 20 := by decide
 example : isShort (decImpl exS ((XdrSpec.enc exS exSD).take 16)) = true := by decide
 example : isShort (decImpl exS ((XdrSpec.enc exS exSD).take 13)) = true := by decide
 example : isShort (decImpl exS ((XdrSpec.enc exS exSD).take 20)) = false := by decide
-example : ∀ x, decImpl exS ((XdrSpec.enc exS exSD).take 16) ≠ .ok x :=
+example : decImpl exS ((XdrSpec.enc exS exSD).take 16) = .error .short :=
   C05_truncated_rejected exS exSD _ ((XdrSpec.enc exS exSD).drop 16) (by decide)
     (List.take_append_drop 16 _).symm (by decide)
+example : absSR (decStream exS [(XdrSpec.enc exS exSD).take 7, [], ((XdrSpec.enc exS exSD).drop 7).take 9])
+    = .error .eof :=
+  C05_truncated_rejected_stream exS exSD _ ((XdrSpec.enc exS exSD).drop 16) (by decide) (by decide) (by decide)
 example : ∃ dds0, ∀ i, i < dds0.length →
     ¬ splitPattern.isPrefixOf ((dds0 ++ splitPattern ++ encImpl exT exD).drop i) = true :=
   ⟨[32], by decide⟩
